@@ -319,3 +319,19 @@ def json_listing_order(sx, B):
     sx.claim(ids1 == ids2, "residue ids and names do not depend on the order in which the file lists the nodes",
              lambda: "listing %r: %r vs %r" % (order, ids1, ids2))
     sx.claim(out1 == out2, "the generated molecule does not depend on the listing order of nodes and edges in the file")
+
+
+import harness.C01 as _c01      # noqa: E402
+
+
+@condition("C13.termini_order",
+           anchors=["polyply.src.apply_modifications:_patch_protein_termini", "polyply.src.apply_modifications:apply_mod"],
+           rejects=(), selector_only=True, must_cover=["default termini", "relabelled", "residues not stored in residue-id order"],
+           outside=["modifications that add atoms"],
+           bounds={"quick": dict(seqs=[["ALA", "GLY", "LYS"], ["LYS", "ALA"]], starts=[1, 4]),
+                   "thorough": dict(seqs=[["ALA", "GLY", "LYS"], ["LYS", "ALA"], ["LYS", "LYS", "ALA", "GLY"]], starts=[1, 2, 4, 30])})
+def termini_order(sx, B):
+    """Node keys and node insertion order do not decide which residues count as termini: the C01.modifications harness (absolute
+    oracle: the residues with the smallest and the largest residue id get the default N-ter / C-ter) with relabelled keys and
+    residues stored in reverse order."""
+    _c01.modifications(sx, B)
